@@ -1,10 +1,35 @@
 import Drivers.Proto
 import St4sd.Model.TreeJson
+import St4sd.Model.CacheViews
 /-! Model driver for property C08 (configuration interface with cache): one history per line. -/
 open Lean Proto St4sd.Tree
 
 def labelText (l : Label) : String :=
   "component:" ++ String.ofList (labelTail l)
+
+def entryOfString : String → Except String Entry
+  | "spec" => pure .spec
+  | "specSibling" => pure .specSibling
+  | "node" => pure .node
+  | "graph" => pure .graph
+  | "conf" => pure .conf
+  | "concrete" => pure .concrete
+  | "job" => pure .job
+  | e => throw s!"unknown entry {e}"
+
+/-- `{"op":"via","entry":E,"u":<op>}` | `{"op":"view","entry":E,"view":null | [k1,…],"stage":i,"name":n,<flags>}` -/
+def gopOfJson (j : Json) : Except String GOp := do
+  let op ← getStr j "op"
+  let e ← entryOfString (← getStr j "entry")
+  match op with
+  | "via" => pure (.via e (← opOfJson (← j.getObjVal? "u")))
+  | "view" =>
+    let v ← match optField j "view" with
+      | .null => pure View.configuration
+      | .arr ks => do pure (View.path (← ks.toList.mapM (fun k => do pure (← k.getStr?).toList)))
+      | _ => throw "view"
+    pure (.view e v (← getN j "stage") (← getS j "name") (← flagsOfJson j))
+  | _ => throw s!"unknown graph op {op}"
 
 def handle (j : Json) : Except String Json := do
   let op ← getStr j "op"
@@ -16,6 +41,13 @@ def handle (j : Json) : Except String Json := do
     let (s, answers) := run fuel (init d) ops
     return jobj [("answers", jarr (answers.map jsonOfResult)),
                  ("cache", jarr (s.cache.map (fun e => jstr (labelText e.1))))]
+  | "grun" =>
+    let d ← descOfJson (← j.getObjVal? "desc")
+    let fuel ← getNat j "fuel"
+    let P ← getChars j "platform"
+    let gops ← (← getArr j "ops").mapM gopOfJson
+    let (_, answers) := grun fuel P (init d) gops
+    return jobj [("answers", jarr (answers.map jsonOfResult))]
   | "invalidates" =>
     let i ← getNat j "stage"
     let n ← getChars j "name"
